@@ -1,1 +1,329 @@
--- property theorems for C05 (stub)
+import RP.Lemmas.IsoBridge
+/-! # C05 — Suit-isomorphism canonicalisation is invariant, faithful and idempotent
+
+Model: `RP/Model/Iso.lean` (`Permutation::from/permute/image/shift`, `Isomorphism::from`,
+`is_canonical` at bit level, parametrised by the deck mask `m`).  All theorems hold for every
+deck mask satisfying `MaskOK` (52 bits, closed under changing a card's suit); `maskOK_std` and
+`maskOK_short` discharge that for the two generated masks `RP.Gen.handMaskStd/Short` by `decide`,
+so both builds are covered.  `S4 = RP.Gen.permExhaust` is the generated 24-row table of
+`Permutation::exhaust()`; `exhaust_is_S4` shows it is exactly the set of rearrangements of the
+four suits.
+
+Everything is proved for **all** observations (no enumeration): the abstract argument
+(`Lemmas/IsoSort`: four contents sorted by `(key, suit)`) is connected to the bit-level model by
+`Lemmas/IsoBits/IsoKeys/IsoOrder/IsoImage/IsoBridge` (shift by the suit difference = relabel,
+keys do not see the suit, the model's sort is the abstract sort of the contents).
+
+`Valid m o` asks less than the property does (no disjointness of pocket and board, any board
+size ≤ 5), so the theorems cover every `Observation` value the Rust type can hold. -/
+namespace RP.C05
+open RP.Iso List
+
+/-- what `Observation::from((Hand, Hand))` guarantees: cards inside the deck, two pocket cards,
+    at most five board cards -/
+structure Valid (m : Nat) (o : Obs) : Prop where
+  pocket_in : o.pocket &&& m = o.pocket
+  board_in : o.board &&& m = o.board
+  pocket2 : size o.pocket = 2
+  board5 : size o.board ≤ 5
+
+/-- the observations of the property statement: additionally disjoint, 0/3/4/5 board cards -/
+structure WellFormed (m : Nat) (o : Obs) : Prop extends Valid m o where
+  disjoint : o.pocket &&& o.board = 0
+  street : size o.board = 0 ∨ size o.board = 3 ∨ size o.board = 4 ∨ size o.board = 5
+
+theorem permute_pocket (m : Nat) (p : List Nat) (o : Obs) : (permute m p o).pocket = image m p o.pocket := rfl
+theorem permute_board (m : Nat) (p : List Nat) (o : Obs) : (permute m p o).board = image m p o.board := rfl
+theorem canon_pocket (m : Nat) (o : Obs) : (canon m o).pocket = image m (permOf m o) o.pocket := rfl
+theorem canon_board (m : Nat) (o : Obs) : (canon m o).board = image m (permOf m o) o.board := rfl
+theorem permute_eq (m : Nat) (p : List Nat) (o : Obs) : permute m p o = ⟨image m p o.pocket, image m p o.board⟩ := rfl
+theorem canon_eq (m : Nat) (o : Obs) : canon m o = permute m (permOf m o) o := rfl
+theorem Obs.ext' {a b : Obs} (h1 : a.pocket = b.pocket) (h2 : a.board = b.board) : a = b := by
+  cases a; cases b; simp only at h1 h2; rw [h1, h2]
+
+/-! ## example observations for the non-vacuity checks
+
+`exA` = `2s Ks ~ 2d 5h 8c Tc Th`, `exB` = `2s Ks ~ 2h 5c 8d Tc Td` (the repository's `super_symmetry` pair):
+`exB` is `exA` relabeled by `c→d, d→h, h→c`. `exT` = `2c 2d ~ 3c 3d 4h` has two tied suits. -/
+def exA : Obs := ⟨2^3 + 2^47, 2^1 + 2^14 + 2^24 + 2^32 + 2^34⟩
+def exB : Obs := ⟨2^3 + 2^47, 2^2 + 2^12 + 2^25 + 2^32 + 2^33⟩
+def exT : Obs := ⟨2^0 + 2^1, 2^4 + 2^5 + 2^10⟩
+def exS : Obs := ⟨2^19 + 2^47, 2^17 + 2^30 + 2^40 + 2^48 + 2^50⟩   -- 6s Ks ~ 6d 9h Qc Ac Ah (inside the short deck)
+
+theorem exA_valid : Valid RP.Gen.handMaskStd exA :=
+  ⟨by decide +kernel, by decide +kernel, by decide +kernel, by decide +kernel⟩
+theorem exB_valid : Valid RP.Gen.handMaskStd exB :=
+  ⟨by decide +kernel, by decide +kernel, by decide +kernel, by decide +kernel⟩
+theorem exT_valid : Valid RP.Gen.handMaskStd exT :=
+  ⟨by decide +kernel, by decide +kernel, by decide +kernel, by decide +kernel⟩
+theorem exS_valid : Valid RP.Gen.handMaskShort exS :=
+  ⟨by decide +kernel, by decide +kernel, by decide +kernel, by decide +kernel⟩
+
+/-! ## relabeling is total and stays inside the observations -/
+
+theorem valid_permute {m : Nat} (hm : MaskOK m) {p : List Nat} (hp : p ∈ S4) {o : Obs} (ho : Valid m o) :
+    Valid m (permute m p o) :=
+  ⟨image_and_mask hm hp _, image_and_mask hm hp _,
+   by rw [permute_pocket, size_image hm hp _ ho.pocket_in]; exact ho.pocket2,
+   by rw [permute_board, size_image hm hp _ ho.board_in]; exact ho.board5⟩
+
+/-- no assertion of `Permutation::permute` (`Hand::add`, `Observation::from`) fires -/
+theorem permute?_eq {m : Nat} (hm : MaskOK m) {p : List Nat} (hp : p ∈ S4) {o : Obs} (ho : Valid m o) :
+    permute? m p o = some (permute m p o) := by
+  have hv := valid_permute hm hp ho
+  have h2 := hv.pocket2
+  have h5 := hv.board5
+  rw [permute_pocket] at h2
+  rw [permute_board] at h5
+  simp [permute?, image?_eq hm hp, obsFrom?, permute_eq, h2, h5]
+
+-- non-vacuity: a relabeling that really moves cards, evaluated through the asserting functions
+example : permute? RP.Gen.handMaskStd [1, 2, 0, 3] exA = some exB ∧ exB ≠ exA := by decide +kernel
+
+theorem wellFormed_permute {m : Nat} (hm : MaskOK m) {p : List Nat} (hp : p ∈ S4) {o : Obs}
+    (ho : WellFormed m o) : WellFormed m (permute m p o) := by
+  refine { valid_permute hm hp ho.toValid with disjoint := ?_, street := ?_ }
+  · rw [permute_pocket, permute_board]
+    apply Nat.eq_of_testBit_eq
+    intro i
+    obtain ⟨s, hs, hsi⟩ := pmap_surj p hp (i % 4) (by omega)
+    rw [Nat.testBit_and, image_testBit_at hm hp hs _ hsi.symm, image_testBit_at hm hp hs _ hsi.symm,
+      Nat.zero_testBit]
+    have : (o.pocket &&& o.board).testBit (i / 4 * 4 + s) = false := by rw [ho.disjoint]; simp
+    rw [Nat.testBit_and] at this
+    cases m.testBit i <;> simp [this]
+  · rw [permute_board, size_image hm hp _ ho.board_in]; exact ho.street
+
+theorem canon?_eq {m : Nat} (hm : MaskOK m) {o : Obs} (ho : Valid m o) :
+    canon? m o = some (canon m o) := permute?_eq hm (permOf_mem m o) ho
+
+theorem valid_canon {m : Nat} (hm : MaskOK m) {o : Obs} (ho : Valid m o) : Valid m (canon m o) :=
+  valid_permute hm (permOf_mem m o) ho
+
+/-! ## key completeness (the counting argument) -/
+
+/-- **key_complete**: within one observation, two suits with the same six content keys
+    `(|pocket∩s|, |board∩s|, min/max ranks)` hold the same ranks in the pocket and on the board.
+    (The pocket has 2 cards, so each suit's part is determined by size/min/max; two suits with the
+    same board size `q` need `2q ≤ 5`, so `q ≤ 2` and the same holds for the board part.) -/
+theorem key_complete {m : Nat} (hm : MaskOK m) {o : Obs} (ho : Valid m o) {s t : Nat} (hs : s < 4) (ht : t < 4)
+    (hk : KN (cont m o s) = KN (cont m o t)) : cont m o s = cont m o t := by
+  by_cases hst : s = t
+  · rw [hst]
+  obtain ⟨k1, k2, k3, k4, k5, k6⟩ := kcode_inj hk
+  have sp := size_norms hm ho.pocket_in
+  have sb := size_norms hm ho.board_in
+  have p2 := ho.pocket2
+  have b5 := ho.board5
+  simp only [cont] at k1 k2 k3 k4 k5 k6
+  have cs : s = 0 ∨ s = 1 ∨ s = 2 ∨ s = 3 := by omega
+  have ct : t = 0 ∨ t = 1 ∨ t = 2 ∨ t = 3 := by omega
+  have hp2 : size (norm m o.pocket s) ≤ 2 := by
+    rcases cs with rfl | rfl | rfl | rfl <;> omega
+  have hb2 : size (norm m o.board s) ≤ 2 := by
+    rcases cs with rfl | rfl | rfl | rfl <;> rcases ct with rfl | rfl | rfl | rfl <;> omega
+  apply NC.ext
+  · exact determined (norm_normalized _ _ _) (norm_normalized _ _ _) k1 hp2 k3 k5
+  · exact determined (norm_normalized _ _ _) (norm_normalized _ _ _) k2 hb2 k4 k6
+
+-- non-vacuity: `2c 2d ~ 3c 3d 4h` has two different suits (c, d) with the same key, and a third with another key
+example : KN (cont RP.Gen.handMaskStd exT 0) = KN (cont RP.Gen.handMaskStd exT 1) ∧
+    KN (cont RP.Gen.handMaskStd exT 0) ≠ KN (cont RP.Gen.handMaskStd exT 2) := by decide +kernel
+example : cont RP.Gen.handMaskStd exT 0 = cont RP.Gen.handMaskStd exT 1 :=
+  key_complete maskOK_std exT_valid (by decide) (by decide) (by decide +kernel)
+
+/-- the same at the level of the model's sort entries: a tie on the six content keys of
+    `Permutation::order` means equal contents (up to the suit position) -/
+theorem key_complete_model {m : Nat} (hm : MaskOK m) {o : Obs} (ho : Valid m o) {s t : Nat} (hs : s < 4) (ht : t < 4)
+    (hk : (keyVec (colex m o s)).take 6 = (keyVec (colex m o t)).take 6) :
+    ofSuit m o.pocket s >>> s = ofSuit m o.pocket t >>> t ∧ ofSuit m o.board s >>> s = ofSuit m o.board t >>> t := by
+  simp only [colex, keyVec_eq, take_succ_cons, take_zero, cons.injEq, and_true] at hk
+  obtain ⟨a1, a2, a3, a4, a5, a6⟩ := hk
+  have hkc : KN (cont m o s) = KN (cont m o t) := by
+    have e : ∀ u, u < 4 → KN (cont m o u) = kcode (ofSuit m o.pocket u) (ofSuit m o.board u) := by
+      intro u hu
+      simp only [KN, cont]
+      rw [ofSuit_eq_norm hu, ofSuit_eq_norm hu, kcode_shift (norm_normalized _ _ _) (norm_normalized _ _ _) hu]
+    rw [e s hs, e t ht]
+    simp only [kcode, a1, a2, a3, a4, a5, a6]
+  have := key_complete hm ho hs ht hkc
+  exact ⟨congrArg (fun k : NC => k.1.1) this, congrArg (fun k : NC => k.1.2) this⟩
+
+/-! ## the comparison is strict and total on the four entries: every sort returns the model's list -/
+
+theorem orderLt_asymm : ∀ a b : Entry, orderLt a b = true → orderLt b a = false := by
+  intro ⟨s, P, Q⟩ ⟨t, P', Q'⟩ h
+  rw [← Bool.not_eq_true, orderLt_iff]; rw [orderLt_iff] at h; omega
+
+theorem orderLt_neg : ∀ a b c : Entry, orderLt a c = true → orderLt a b = true ∨ orderLt b c = true := by
+  intro ⟨s, P, Q⟩ ⟨t, P', Q'⟩ ⟨u, P'', Q''⟩ h
+  rw [orderLt_iff] at h; rw [orderLt_iff, orderLt_iff]; omega
+
+/-- **sort_unique**: whatever algorithm `sort_by(order)` uses, a rearrangement of the four colex
+    entries that is sorted w.r.t. `Permutation::order` is the list the model computes
+    (the comparison never returns `Equal` on two different entries because the suit is the last key). -/
+theorem sort_unique (m : Nat) (o : Obs) (l : List Entry) (hp : l.Perm (suits.map (colex m o)))
+    (hs : l.Pairwise (fun a b => orderLt b a = false)) : l = sortedEntries m o := by
+  refine RP.Iso.sort_unique orderLt orderLt_asymm orderLt_neg _ l hp hs ?_
+  intro a ha b hb hab hba
+  simp only [suits_eq, map_cons, map_nil, mem_cons, not_mem_nil, or_false] at ha hb
+  have key : ∀ s t, orderLt (colex m o s) (colex m o t) = false → orderLt (colex m o t) (colex m o s) = false → s = t := by
+    intro s t h1 h2
+    rw [← Bool.not_eq_true, colex, colex, orderLt_iff] at h1 h2
+    omega
+  rcases ha with rfl | rfl | rfl | rfl <;> rcases hb with rfl | rfl | rfl | rfl <;>
+    first | rfl | (have := key _ _ hab hba; omega)
+
+-- non-vacuity: the sort really reorders the four entries of `exA`
+example : sortedEntries RP.Gen.handMaskStd exA ≠ suits.map (colex RP.Gen.handMaskStd exA) ∧
+    (sortedEntries RP.Gen.handMaskStd exA).map (·.1) = [1, 2, 0, 3] := by decide +kernel
+
+/-! ## the three parts of the property -/
+
+/-- **Invariant**: the canonical form of a relabeled observation is the canonical form of the original. -/
+theorem C05_invariant {m : Nat} (hm : MaskOK m) {o : Obs} (ho : Valid m o) {π : List Nat} (hπ : π ∈ S4) :
+    canon m (permute m π o) = canon m o := by
+  have hinv := sortedA_invariant orderSpec (cont m o) (cont m (permute m π o)) π (S4_perm π hπ)
+    (fun s hs => cont_permute hm hπ o hs) (fun s t hs ht => key_complete hm ho hs ht)
+  have h1 := cont_canon hm o
+  have h2 := cont_canon hm (permute m π o)
+  rw [hinv, ← h1] at h2
+  simp only [map_cons, map_nil, cons.injEq, and_true] at h2
+  obtain ⟨e0, e1, e2, e3⟩ := h2
+  have hn : ∀ s, s < 4 → cont m (canon m (permute m π o)) s = cont m (canon m o) s := by
+    intro s hs
+    have : s = 0 ∨ s = 1 ∨ s = 2 ∨ s = 3 := by omega
+    rcases this with rfl | rfl | rfl | rfl <;> assumption
+  have hv1 := valid_canon hm (valid_permute hm hπ ho)
+  have hv2 := valid_canon hm ho
+  exact Obs.ext'
+    (hand_ext hm hv1.pocket_in hv2.pocket_in (fun s hs => congrArg (fun k : NC => k.1.1) (hn s hs)))
+    (hand_ext hm hv1.board_in hv2.board_in (fun s hs => congrArg (fun k : NC => k.1.2) (hn s hs)))
+
+-- non-vacuity: `exB` is a genuine relabeling of `exA` (different observation), same canonical form
+example : canon RP.Gen.handMaskStd exB = canon RP.Gen.handMaskStd exA := by
+  have h : permute RP.Gen.handMaskStd [1, 2, 0, 3] exA = exB := by decide +kernel
+  rw [← h]; exact C05_invariant maskOK_std exA_valid (by decide)
+example : canon RP.Gen.handMaskStd exA = ⟨2^3 + 2^47, 2^0 + 2^13 + 2^26 + 2^33 + 2^34⟩ ∧ exA ≠ exB := by decide +kernel
+
+/-- the same through the asserting functions: relabel (no panic), then canonicalise (no panic) -/
+theorem C05_invariant_total {m : Nat} (hm : MaskOK m) {o : Obs} (ho : Valid m o) {π : List Nat} (hπ : π ∈ S4) :
+    (permute? m π o).bind (canon? m) = canon? m o ∧ canon? m o = some (canon m o) := by
+  rw [permute?_eq hm hπ ho, Option.bind_some, canon?_eq hm (valid_permute hm hπ ho), canon?_eq hm ho,
+    C05_invariant hm ho hπ]
+  exact ⟨rfl, rfl⟩
+
+/-- **Faithful**: the permutation computed by `Permutation::from` is a row of the table (a bijection
+    on suits), canonicalisation is the relabeling by it with no assertion firing, and pocket and board
+    are each relabeled card by card: card `(r, s)` of the original is card `(r, p[s])` of the canonical form. -/
+theorem C05_faithful {m : Nat} (hm : MaskOK m) {o : Obs} (ho : Valid m o) :
+    permOf m o ∈ S4 ∧
+    (∀ s, s < 4 → ∀ t, t < 4 → pmap (permOf m o) s = pmap (permOf m o) t → s = t) ∧
+    (∀ t, t < 4 → ∃ s, s < 4 ∧ pmap (permOf m o) s = t) ∧
+    canon? m o = permute? m (permOf m o) o ∧ canon? m o = some (canon m o) ∧
+    Relabel (permOf m o) o.pocket (canon m o).pocket ∧ Relabel (permOf m o) o.board (canon m o).board :=
+  have hp := permOf_mem m o
+  ⟨hp, pmap_inj _ hp, pmap_surj _ hp, rfl, canon?_eq hm ho,
+   image_relabel hm hp ho.pocket_in, image_relabel hm hp ho.board_in⟩
+
+-- non-vacuity: the computed permutation is not the identity and moves the board
+example : permOf RP.Gen.handMaskStd exA = [2, 0, 1, 3] ∧ (canon RP.Gen.handMaskStd exA).board ≠ exA.board := by
+  decide +kernel
+
+/-- ... hence two observations with the same canonical form are relabelings of each other
+    (strategically identical): no false merges. -/
+theorem C05_orbit {m : Nat} (hm : MaskOK m) {o o' : Obs} (ho : Valid m o) (ho' : Valid m o')
+    (h : canon m o = canon m o') :
+    ∃ π, π ∈ S4 ∧ o' = permute m π o ∧ Relabel π o.pocket o'.pocket ∧ Relabel π o.board o'.board := by
+  have hp := permOf_mem m o
+  have hsg' := sigma_mem m o'
+  have hp' := permOf_mem m o'
+  have hπ : comp (sigma m o') (permOf m o) ∈ S4 := comp_mem _ hp _ hsg'
+  -- undoing the canonicalisation of o'
+  have hinv : comp (sigma m o') (permOf m o') = [0, 1, 2, 3] := comp_self_invFold _ hsg'
+  have back : ∀ x, x &&& m = x → image m (sigma m o') (image m (permOf m o') x) = x := by
+    intro x hx
+    rw [image_image hm hp' hsg', hinv, image_id hm hx]
+  have e1 : o'.pocket = image m (comp (sigma m o') (permOf m o)) o.pocket := by
+    rw [← image_image hm hp hsg', ← canon_pocket, h, canon_pocket, back _ ho'.pocket_in]
+  have e2 : o'.board = image m (comp (sigma m o') (permOf m o)) o.board := by
+    rw [← image_image hm hp hsg', ← canon_board, h, canon_board, back _ ho'.board_in]
+  generalize comp (sigma m o') (permOf m o) = π at hπ e1 e2
+  refine ⟨π, hπ, Obs.ext' (by rw [permute_pocket]; exact e1) (by rw [permute_board]; exact e2), ?_, ?_⟩
+  · rw [e1]; exact image_relabel hm hπ ho.pocket_in
+  · rw [e2]; exact image_relabel hm hπ ho.board_in
+
+-- non-vacuity: the two `super_symmetry` observations share their canonical form, so they are relabelings
+example : ∃ π, π ∈ S4 ∧ exB = permute RP.Gen.handMaskStd π exA ∧ Relabel π exA.pocket exB.pocket ∧ Relabel π exA.board exB.board :=
+  C05_orbit maskOK_std exA_valid exB_valid (by decide +kernel)
+
+/-- **Idempotent**: canonicalising a canonical form changes nothing, and it is recognised as canonical. -/
+theorem C05_idempotent {m : Nat} (hm : MaskOK m) (o : Obs) :
+    canon m (canon m o) = canon m o ∧ isCanonical m (canon m o) = true := by
+  have hs : sortedA ltN (cont m (canon m o)) = entriesA (cont m (canon m o)) :=
+    sortedA_canonical orderSpec (cont m o) _ (cont_canon hm o)
+  have hsig : sigma m (canon m o) = [0, 1, 2, 3] := by rw [sigma_eq, hs]; rfl
+  have hperm : permOf m (canon m o) = suits := by rw [permOf, hsig]; decide
+  have hp := permOf_mem m o
+  refine ⟨?_, by simp [isCanonical, hperm]⟩
+  rw [canon_eq m (canon m o), hperm, suits_eq]
+  apply Obs.ext'
+  · rw [permute_pocket, canon_pocket, image_id hm (image_and_mask hm hp _)]
+  · rw [permute_board, canon_board, image_id hm (image_and_mask hm hp _)]
+
+-- non-vacuity: the input itself is *not* canonical, its canonical form is
+example : isCanonical RP.Gen.handMaskStd exA = false ∧
+    isCanonical RP.Gen.handMaskStd (canon RP.Gen.handMaskStd exA) = true := by decide +kernel
+
+/-- the same through the asserting functions -/
+theorem C05_idempotent_total {m : Nat} (hm : MaskOK m) {o : Obs} (ho : Valid m o) :
+    (canon? m o).bind (canon? m) = canon? m o ∧ (canon? m o).map (isCanonical m) = some true := by
+  rw [canon?_eq hm ho, Option.bind_some, canon?_eq hm (valid_canon hm ho), (C05_idempotent hm o).1,
+    Option.map_some, (C05_idempotent hm o).2]
+  exact ⟨rfl, rfl⟩
+
+/-- an observation recognised as canonical is its own canonical form -/
+theorem canon_of_isCanonical {m : Nat} (hm : MaskOK m) {o : Obs} (ho : Valid m o)
+    (hc : isCanonical m o = true) : canon m o = o := by
+  have hperm : permOf m o = suits := by simpa [isCanonical] using hc
+  rw [canon_eq, hperm, suits_eq]
+  apply Obs.ext'
+  · rw [permute_pocket, image_id hm ho.pocket_in]
+  · rw [permute_board, image_id hm ho.board_in]
+
+/-- **one representative per orbit**: two relabelings of each other that are both recognised as
+    canonical are the same observation -/
+theorem C05_unique_representative {m : Nat} (hm : MaskOK m) {o : Obs} (ho : Valid m o) {π : List Nat}
+    (hπ : π ∈ S4) (h1 : isCanonical m o = true) (h2 : isCanonical m (permute m π o) = true) :
+    permute m π o = o := by
+  rw [← canon_of_isCanonical hm (valid_permute hm hπ ho) h2, C05_invariant hm ho hπ,
+    canon_of_isCanonical hm ho h1]
+
+-- non-vacuity: a canonical observation with a non-trivial stabiliser (`2c 2d` pre-flop... here `exT`'s canonical form)
+example : isCanonical RP.Gen.handMaskStd (canon RP.Gen.handMaskStd exT) = true ∧
+    permute RP.Gen.handMaskStd [1, 0, 2, 3] exT = exT := by decide +kernel
+
+/-! ## both deck builds -/
+
+theorem C05_std {o : Obs} (ho : Valid RP.Gen.handMaskStd o) {π : List Nat} (hπ : π ∈ RP.Gen.permExhaust) :
+    canon RP.Gen.handMaskStd (permute RP.Gen.handMaskStd π o) = canon RP.Gen.handMaskStd o ∧
+    canon RP.Gen.handMaskStd (canon RP.Gen.handMaskStd o) = canon RP.Gen.handMaskStd o ∧
+    isCanonical RP.Gen.handMaskStd (canon RP.Gen.handMaskStd o) = true ∧
+    canon? RP.Gen.handMaskStd o = some (canon RP.Gen.handMaskStd o) :=
+  ⟨C05_invariant maskOK_std ho hπ, (C05_idempotent maskOK_std o).1, (C05_idempotent maskOK_std o).2,
+   canon?_eq maskOK_std ho⟩
+
+theorem C05_short {o : Obs} (ho : Valid RP.Gen.handMaskShort o) {π : List Nat} (hπ : π ∈ RP.Gen.permExhaust) :
+    canon RP.Gen.handMaskShort (permute RP.Gen.handMaskShort π o) = canon RP.Gen.handMaskShort o ∧
+    canon RP.Gen.handMaskShort (canon RP.Gen.handMaskShort o) = canon RP.Gen.handMaskShort o ∧
+    isCanonical RP.Gen.handMaskShort (canon RP.Gen.handMaskShort o) = true ∧
+    canon? RP.Gen.handMaskShort o = some (canon RP.Gen.handMaskShort o) :=
+  ⟨C05_invariant maskOK_short ho hπ, (C05_idempotent maskOK_short o).1, (C05_idempotent maskOK_short o).2,
+   canon?_eq maskOK_short ho⟩
+
+-- non-vacuity for the short deck: a valid short-deck observation whose canonical form differs from it
+example : canon RP.Gen.handMaskShort exS ≠ exS ∧
+    canon RP.Gen.handMaskShort (permute RP.Gen.handMaskShort [3, 2, 1, 0] exS) = canon RP.Gen.handMaskShort exS := by
+  decide +kernel
+
+end RP.C05
